@@ -255,6 +255,8 @@ impl<'tcx> Cx<'tcx> {
                 PlaceElem::Deref => J::O(vec![("k", J::s("deref"))]),
                 PlaceElem::Field(f, fty) => {
                     let mut name: Option<String> = None;
+                    let mut owner: Option<String> = None;
+                    let mut owner_local = false;
                     match pty.ty.kind() {
                         ty::Adt(adt, _) => {
                             let vi = pty.variant_index.unwrap_or(rustc_abi::FIRST_VARIANT);
@@ -262,6 +264,12 @@ impl<'tcx> Cx<'tcx> {
                                 if let Some(fd) = adt.variant(vi).fields.get(f) {
                                     name = Some(fd.name.to_string());
                                 }
+                                owner_local = adt.did().is_local();
+                                owner = Some(if adt.is_enum() {
+                                    format!("{}::{}", self.path(adt.did()), adt.variant(vi).name)
+                                } else {
+                                    self.path(adt.did())
+                                });
                             }
                         }
                         ty::Closure(d, _) | ty::Coroutine(d, _) | ty::CoroutineClosure(d, _) => {
@@ -279,6 +287,8 @@ impl<'tcx> Cx<'tcx> {
                         ("i", J::I(f.as_usize() as i128)),
                         ("name", opt_s(name)),
                         ("ty", J::S(self.ty_s(fty))),
+                        ("owner", opt_s(owner)),
+                        ("owner_local", J::B(owner_local)),
                     ])
                 }
                 PlaceElem::Index(l) => {
